@@ -775,7 +775,7 @@ class Condition(ConditionLike):
             return arg.to_spec()
         if isinstance(arg, dict) and len(arg) == 1:
             arg_key = next(iter(arg))
-            if isinstance(arg_key, str) and arg_key.split(".")[0] == "path":
+            if isinstance(arg_key, str) and arg_key.split(".")[0].lower() == "path":
                 return {f"\\{arg_key}": arg[arg_key]}
         if _check_items:
             if isinstance(arg, dict):
